@@ -20,7 +20,8 @@ SHRINK_KEEP_FIRST = 1          # every history starts with `reset` (tells the st
 NS = 8
 RULE = ("cases = histories of 12..300 statements over 8 root Vars driven by a python shadow simulation (typed and Var-to-Var assignment "
         "incl. own elements/properties and ancestors, auto-creating paths, <<, resize, removeAt, remove, clear, extend, clone, copy, drop, "
-        "constructors) interleaved with queries (dump, ==, toString, conversions, is/has/contains/length, rc), plus literal sweeps over "
+        "constructors incl. Var(long/unsigned long), Array<T>/initializer_list<T>/Dic<T>/Var::array({..}); source reference resolved before "
+        "an auto-creating target in the same container) interleaved with queries (dump, ==, toString, conversions, is/has/contains/length, rc), plus literal sweeps over "
         "every string length 0..20/31/32/100 and numeric boundary, the INT/NUMBER/FLOAT x STRING/SSTRING equality lattice, FLOAT (C++ float) "
         "against INT/NUMBER at and around k*2^24..2^31 (ints a float cannot hold vs the float they round to and its ulp neighbours, both "
         "operand orders, as array elements, object values and contains() arguments; exact integer/Fraction oracle), growth across "
@@ -1352,8 +1353,12 @@ def distribution(cases):
             t = l.split()
             op = t[0]
             ops[op] = ops.get(op, 0) + 1
+            container_ctor = op == "ctor" and len(t) > 2 and t[2] in ("arr", "list", "dic", "varr")
+            if container_ctor:
+                ck = "ctor " + t[2]
+                ops[ck] = ops.get(ck, 0) + 1
             for i, x in enumerate(t):
-                if x in ("s", "c") and i + 1 < len(t) and i >= 2:
+                if x in ("s", "c") and i + 1 < len(t) and i >= 2 and not container_ctor:
                     L = len(unhex(t[i + 1]))
                     strlens["0-6" if L < 7 else "7" if L == 7 else "8" if L == 8 else "9-20" if L <= 20 else ">20"] += 1
             if op in ("set", "setv", "app", "appl", "resize", "remat", "rem", "clear", "ext") and len(t) > 1:
@@ -1397,43 +1402,69 @@ TECHNIQUE = ("Lean 4 theorems about an executable reference-counted heap model o
              "+ independent python simulation with native reference semantics")
 LEVEL_TEXT = (
     "Proved in Lean 4, for ALL inputs/heaps/histories, about the executable reference-counted heap model of Var that the driver runs "
-    "(lean/AslModel/Var.lean: tagged values, blocks {elements, capacity, rc} that move when they grow, every constructor, typed and "
-    "Var assignment, auto-creating operator[], <<, resize, removeAt, remove, clear, extend, clone, ==, toString): "
-    "(1) accessors_*: a Var built from int/unsigned/Long/double/float/bool/string reports that type and value (unsigned >= 2^31 -> "
-    "NUMBER, inline representation exactly below 8 bytes, same bytes and length on both sides of the boundary); "
-    "(2) eq_iff_content (+ eq_refl/eq_symm/eq_trans, numbers_compare_numerically, eq_float_int_exact): v == w is true exactly when both denote the same "
-    "abstract tree (numbers by value across INT/NUMBER/FLOAT, strings by bytes across STRING/SSTRING, containers element-wise, "
-    "NONE = NONE), hence an equivalence; "
-    "(3) history_safe (full) / history_never_touches_freed: for EVERY history of guarded statements from the initial state — typed and "
-    "Var assignment incl. a Var's own elements/properties and type changes of shared Vars, auto-creating paths of any depth, append, "
-    "resize, remove, clear, extend, clone, copy, drop, constructors — the invariant holds in every reached state (each handle points to "
-    "a live block of its kind, rc = number of handles > 0, objects sorted, handle graph acyclic) and no statement reads or releases a "
-    "released block, indexes outside an element array or finds a zero count; no_leak: when no root holds a container any more, no "
-    "block is live; no_orphan_block; "
+    "(lean/AslModel/Var.lean: tagged values, blocks {elements, capacity, rc} that move when they grow, every constructor incl. "
+    "Var(long)/Var(unsigned long), Var(Array<T>), Var(initializer_list<T>), Var(Dic<T>), Var::array({..}), typed and Var assignment with "
+    "the source REFERENCE evaluated before the target path (as the C++ does), auto-creating operator[], <<, resize, removeAt, remove, "
+    "clear, extend, clone, ==, toString): "
+    "(1) accessors_* (int with -2^31 <= i < 2^31, unsigned, Long and native long/unsigned long with |x| < 2^53, double, float, bool, "
+    "string): DEFINITIONAL restatements of the model's constructor/accessor definitions (type tag, value, unsigned >= 2^31 -> NUMBER, "
+    "long outside the int range -> NUMBER, inline strings exactly below 8 bytes) — they say what the model is, and are validated "
+    "against the library only by K (literal sweeps over every numeric boundary and string length); "
+    "(2) eq_iff_content (+ eq_refl/eq_symm/eq_trans, numbers_compare_numerically, eq_float_int_exact): v == w is true exactly when both "
+    "denote the same abstract tree (numbers by VALUE across INT/NUMBER/FLOAT — stored pairs are compared through their normal forms, so "
+    "no normality hypothesis on stored numbers is needed —, strings by bytes across STRING/SSTRING, containers element-wise, NONE = NONE), "
+    "hence an equivalence; roots_denote_trees: in every reached state every root denotes a tree for some traversal depth (the "
+    "equality theorems are not vacuous); "
+    "(3) history_safe (full): for EVERY history of guarded statements from the initial state the invariant holds in every reached state "
+    "(each handle points to a live block of its kind, rc = number of handles > 0, objects sorted, handle graph acyclic); "
+    "history_never_touches_freed / history_in_domain: every statement is executed, or refused as Excluded (shared-growth, "
+    "autocreate-invalidates-source, self-containment) or as OutOfDomain (nopath: const path through a missing element; badarg: "
+    "operand of the wrong kind / out-of-range index or root; fuel) — the LIBRARY HAS NO CHECK for either class: they are domain "
+    "hypotheses of the theorem (InDomain ops), the generator stays inside them and the harness refuses them by prediction; within the "
+    "domain no statement reads or releases a released block, indexes outside an element array or finds a zero count; no_leak: when no "
+    "root holds a container any more, no block is live; no_orphan_block; "
     "(4) assign_spec (full, over all histories) / assign_spec_state / assign_then_equal: an executed p = q (q possibly inside p, at any "
-    "depth) leaves the Var at p readable, holding exactly the source value, which denotes the same tree as before, and p == every Var "
-    "denoting that tree; (5) clone_deep_partial: clone() only appends blocks, denotes the same tree, and denotes it in every later heap "
+    "depth; source reference resolved first) leaves the Var at p readable, holding exactly the source value, which denotes the same tree "
+    "as before, and p == every Var denoting that tree; assign_lit_spec: an executed typed assignment p = x leaves p readable with the "
+    "literal's type and content whatever it held before (shared container, STRING kept in place, SSTRING overwritten inline); "
+    "(5) ctor_array_spec / ctor_dic_spec / ctor_vars_spec: after Var(Array<T>) / Var(initializer_list<T>) the root is an ARRAY of exactly "
+    "n elements denoting the given values in order; after Var(Dic<T>) an OBJECT with ascending unique keys (later entry wins) denoting "
+    "the given values; after Var::array({a,b,..}) an ARRAY whose elements denote the trees of the given Vars (containers shared and "
+    "counted); the invariant holds; "
+    "(6) clone_deep_partial: clone() only appends blocks, denotes the same tree, and denotes it in every later heap "
     "that keeps the appended blocks, whatever happens to everything the original reaches; "
-    "(6) var_shared_growth_counterexample: without the guard, Var c = a; a << ... leaves c with a released block (the known finding). "
+    "(7) var_shared_growth_counterexample / autocreate_invalidates_source_counterexample: without the guards, Var c = a; a << ... leaves "
+    "c with a released block, and v[5] = v[0] reads the source through a reference into a block the target path has moved (the two "
+    "known findings). "
     "The model is tied to the current source on every run by the correspondence check (real library under ASan/LSan vs compiled model "
     "vs an independent python simulation with native reference semantics) over generated histories."
 )
 LEVEL_NOTE = (
-    "All theorems hold under the known-finding hypothesis built into the guarded statements: no operation grows a container block whose "
-    "rc > 1 (known: property=C04 key=shared-growth; generator and harness skip exactly those operations, probe prints KNOWN-FINDING), "
-    "and no statement makes a container contain itself (excluded by the property; refused by the guard). "
+    "Hypotheses built into the guarded statements (refused identically by model, harness and python simulation; KNOWN probes run them "
+    "unguarded and crash under ASan): (a) known: property=C04 key=shared-growth — no operation grows a container block whose rc > 1; "
+    "(b) known: property=C04 key=autocreate-invalidates-source — in p = q / p << q / p.extend(q) the auto-creating target path does not "
+    "reallocate or shift the block the already evaluated source reference points into (v[5] = v[0], v[\"a\"] = v[\"b\"] with a new "
+    "key); no small safe repair exists (the reference dangles before operator= runs); (c) no statement makes a container contain itself "
+    "(excluded by the property). Domain hypotheses without any library check (OutOfDomain in history_in_domain): const paths exist, "
+    "operands have the required kind, indexes/roots in range. "
+    "NOT MODELLED: the heap storage of a STRING (Array<char>: NEW_STRINGC/resize/DEL_STRING/dup) — the model keeps the bytes inline "
+    "in the value, never shared; its allocation, in-place reuse, release and leak-freedom are checked only by K under ASan/LSan. "
+    "Constructors NOT covered: Var{{\"k\", v}, ..} (initializer_list<Obj>), nested initializer lists, Array<T>/Dic<T> for T other than "
+    "int, double, String (harness), Var(const char*) with embedded NUL. "
     "Partial: clone_deep_full (kept as `def ... : Prop`; missing: a footprint theorem that later statements not mentioning the clone's "
-    "root never modify the clone's blocks). Not proved: that the driver's traversal bound h.length+2 always suffices (a statement may be "
-    "refused with `fuel`; never observed by K). "
+    "root never modify the clone's blocks). Not proved: that the driver's traversal bound h.length+2 always suffices "
+    "(roots_denote_trees gives SOME depth; a statement may be refused with `fuel`; never observed by K). "
     "Model-side choices validated only by K: the extend loop re-checks reachability of the target from each property (the harness guard "
-    "refuses such calls first); clone is modelled by its net effect (transient rc bumps cancel); typed assignments write the new value "
-    "before releasing the old one. K-only (no theorem): toString/%.15g/%.7g formatting, atoi/atof conversions, int->float rounding, "
+    "refuses such calls first); a source reference that cannot be read back after the target path is reported as srcMoved; clone is "
+    "modelled by its net effect (transient rc bumps cancel); typed assignments write the new value before releasing the old one. "
+    "K-only (no theorem): toString/%.15g/%.7g formatting, atoi/atof conversions, int->float rounding, "
     "capacity policy (3, x2, max(2s,m)) and rc values (compared through array().rc()). Doubles are exact dyadic rationals; NaN, "
-    "infinities, -0 are outside model and generator. Three defects found while building the check were repaired in /repo "
-    "(193448d, 63d8c00, 02a4aa4); witnesses in corpus/C04/fixed.ops."
+    "infinities, -0 are outside model and generator. Four defects found while building the check were repaired in /repo "
+    "(193448d, 63d8c00, 02a4aa4, 6c0507b: Var(long)/Var(unsigned long) truncated to 32 bits); witnesses in corpus/C04/fixed.ops."
 )
-TRUSTED = ["harness/c04.cpp guards: shared-growth prediction from the public array().rc()/cap()/length(), cycle prediction by a walk over "
-           "array().data()/object().kv().data() block addresses; both are mirrored by the model and by the python simulation"]
+TRUSTED = ["harness/c04.cpp guards: shared-growth prediction from the public array().rc()/cap()/length(), source-moved prediction from the "
+           "block address / index / key order of the source reference, cycle prediction by a walk over "
+           "array().data()/object().kv().data() block addresses; all are mirrored by the model and by the python simulation"]
 ASSUMPTIONS = [
     "a finite double is the exact dyadic rational m/2^e (AslModel.Var.Dy); int->double and Long->double (|x| < 2^53) are exact; "
     "NaN, infinities and -0 are outside the model and the generator",
@@ -1442,5 +1473,6 @@ ASSUMPTIONS = [
     "atoi/atof on texts of the form -?[0-9]{1,9} return that integer; other texts are not compared",
     "malloc/realloc succeed; a block that grows is treated as moved (the model never relies on realloc returning the same address)",
     "strcmp on NUL-free byte strings = list equality / unsigned lexicographic order (AslModel.Map.cmpBytes); generated strings and keys are NUL-free",
-    "INT payloads stay within the 32-bit range (the generator only produces such ints)",
+    "INT payloads stay within the 32-bit range (Var(int) literals are generated in range; long/unsigned long literals outside it become NUMBER)",
+    "long is 64 bits (LP64): Var(long)/Var(unsigned long) literals up to 2^53 are exact as double",
 ]
